@@ -1,0 +1,50 @@
+//go:build verif
+
+// Contracts for the contract-based verification harness in /verif (build tag "verif").
+// This file contains only comments (the //@ contract blocks, read by /verif/govc).
+// It is never part of a normal build.
+package api
+
+// ---- C08: the typed helpers host functions use to read and write uint64 slots. A 32-bit value fills its
+// slot zero-extended (what both engines pass for i32 / f32), decoding looks at the low half only, and
+// decode(encode(x)) == x for every x.
+
+//@ prop C08
+//@ func DecodeI32(input uint64) int32
+//@   ensures[low-half-only] r0 == int32(uint32(input))
+//@   modifies nothing
+
+//@ func DecodeU32(input uint64) uint32
+//@   ensures[low-half-only] r0 == uint32(input&0xffffffff)
+//@   modifies nothing
+
+//@ func EncodeI32(input int32) uint64
+//@   ensures[fills-the-slot-zero-extended] r0>>32 == 0 && uint32(r0) == uint32(input)
+//@   ensures[round-trip] DecodeI32(r0) == input && DecodeU32(r0) == uint32(input)
+//@   modifies nothing
+
+//@ func EncodeU32(input uint32) uint64
+//@   ensures[fills-the-slot-zero-extended] r0>>32 == 0 && uint32(r0) == input
+//@   ensures[round-trip] DecodeU32(r0) == input && DecodeI32(r0) == int32(input)
+//@   modifies nothing
+
+//@ func EncodeI64(input int64) uint64
+//@   ensures[same-bits] int64(r0) == input
+//@   modifies nothing
+
+//@ func EncodeExternref(input uintptr) uint64
+//@   ensures[round-trip] DecodeExternref(r0) == input
+//@   modifies nothing
+
+//@ func DecodeExternref(input uint64) uintptr
+//@   ensures[same-bits] uint64(r0) == input
+//@   modifies nothing
+
+//@ func EncodeF32(input float32) uint64
+//@   ensures[fills-the-slot-zero-extended] r0>>32 == 0
+//@   ensures[round-trip] input == input ==> DecodeF32(r0) == input
+//@   modifies nothing
+
+//@ func EncodeF64(input float64) uint64
+//@   ensures[round-trip] input == input ==> DecodeF64(r0) == input
+//@   modifies nothing
